@@ -145,12 +145,14 @@ class SigmaRuleBase:
         if rule_id is not None:
             try:
                 rule_id = UUID(rule_id)
-            except ValueError:
+            except (ValueError, AttributeError, TypeError):  # also non-string values
                 errors.append(
                     sigma_exceptions.SigmaIdentifierError(
                         "Sigma rule identifier must be an UUID", source=source
                     )
                 )
+                if not isinstance(rule_id, str):  # can't be used as identifier at all
+                    rule_id = None
 
         # Rule name
         rule_name = rule.get("name")
